@@ -6,6 +6,7 @@ import JominiModel.Proofs.BinDeFlat
 import JominiModel.Proofs.BinEndToEnd
 import JominiModel.Proofs.BinDeNested
 import JominiModel.Proofs.BinEndToEndLex
+import JominiModel.Proofs.BinEndToEndAll
 /-
 C04 — binary deserialization agrees across tape, on-demand and streaming paths.
 Helper lemmas: Proofs/BinDe.lean (dispatch), Proofs/BinDeSeq.lean (sequential readers).
